@@ -189,6 +189,10 @@ fn value_case(a: &Args, l: u32, ctx: &mut Ctx) -> Result<(), String> {
     if l >= 4 << 20 {
         // 16 MiB values: the neighbours of l and the first length that leaves the slot
         news = vec![l - 1, l + 1, brim as u32 + 1];
+    } else if l >= 200_000 {
+        // a value that keeps its slot while shrinking by more than 128 KiB (the unused tail of the slot is still its own)
+        news.push(l - 131_072 - 300);
+        news.push(l - 140_000);
     }
     news.retain(|&x| x != l);
     news.sort_unstable();
@@ -208,6 +212,12 @@ fn value_case(a: &Args, l: u32, ctx: &mut Ctx) -> Result<(), String> {
         // a shorter value may now sit in the bigger slot: fill that slot to the brim and just beyond (the width of
         // the length field can differ from the one the shorter value had)
         if nl < l {
+            if l >= 200_000 && nl + 131_072 <= l {
+                // another large entry arrives while X is small: it must not land inside X's slot
+                t.put(b"guest", &crate::util::gen_bytes(100_000, 41, 0))?;
+                t.put(b"guest2", &crate::util::gen_bytes(30_000, 42, 0))?;
+                ctx.count("guests_next_to_a_shrunken_value", 1);
+            }
             for third in [brim as u32, brim as u32 + 1, brim as u32 + 2] {
                 t.put(&kx, &crate::util::gen_bytes(third as usize, third ^ 0x99, 0))?;
                 let r = t.check(&[&ka, &kb], ctx).map_err(|e| format!("after overwriting it by length {nl} and then by length {third}: {e}"))?;
